@@ -5,7 +5,7 @@ Property theorems only.  They are stated for the configuration `cfgOfSource` tha
 `telegram/dcs/plain.go` on every run, for ANY number `n ≥ 2` of racing dialers and ANY action list
 (completion orders, outcomes, late successes after the winner, caller cancellation at any point).
 -/
-import TdModel.Lemmas.C42
+import TdModel.Lemmas.C42b
 
 namespace TdModel.C42
 
@@ -199,6 +199,11 @@ theorem holdsB_reachable (n : Nat) (hn : 2 ≤ n) (s : State) (h : Reachable cfg
       obtain ⟨i, hi⟩ := List.getElem?_of_mem hm
       obtain ⟨hp, hok, _⟩ := hall i d hi
       exact ⟨hp, hok⟩
+
+/-- The driver's executable `terminalB` (reported as `term=1` for every replayed implementation trace)
+is exactly the `Terminal` hypothesis of `terminal_all_closed` / `error_iff_all_failed`. -/
+theorem terminalB_is_terminal (s : State) : terminalB cfgOfSource s = true ↔ Terminal cfgOfSource s :=
+  terminalB_iff cfgOfSource s
 
 /-! Non-vacuity: concrete races of three dialers reach the states the theorems speak about. -/
 
